@@ -107,16 +107,24 @@ def sheared_noreduce(crys, rng, via_dict):
     return crystal.Crystal(A2, basis, noreduce=True), M
 
 
-def mesh_case(ck, rng, label, crys, ex, Nmesh):
+def mesh_case(ck, rng, label, crys, ex, Nmesh, history=None):
     dim = crys.dim
     res = dict(label=label, crys=repr(crys), Nmesh=list(Nmesh), nG=len(ex.ops), _crys=crys,
                orthogonal=bool(np.abs(crys.metric - np.diag(np.diag(crys.metric))).max() < 1e-12 * np.abs(crys.metric).max()))
+    snap0 = sg.state_snapshot(crys)
     try:
+        if history is not None:
+            # an EARLIER call on the same object: a coarse mesh reduced with an explicit, loose tolerance
+            kc = crys.fullkptmesh(history["Nmesh"])
+            crys.reducekptmesh(kc, threshold=history["threshold"])
+            res["history"] = "reducekptmesh(fullkptmesh(%s), threshold=%.6g) called before" % (history["Nmesh"], history["threshold"])
         kfull = crys.fullkptmesh(Nmesh)
         kfull0 = np.array(kfull, copy=True)
         kred, w = crys.reducekptmesh(kfull)
+        for k in kfull0[:3]: crys.inBZ(k)
     except Exception as e:
         res["error"] = "%s: %s" % (type(e).__name__, e); return res
+    res["state_diff"] = sg.state_diff(snap0, sg.state_snapshot(crys))
     Nk = int(np.prod(Nmesh))
     res.update(Nk=Nk, Nred=len(kred))
     L = 1                                   # the code's mesh is  f = 1/2 - j/N :  multiples of 1/(2N)
@@ -225,7 +233,7 @@ def run_coq(ck, name, cases, chunk=10):
 def report(ck, res, coq):
     rep = {k: v for k, v in res.items() if k != "term" and not k.startswith("_")}
     even = "even" if all(n % 2 == 0 for n in res["Nmesh"]) else ("odd" if all(n % 2 for n in res["Nmesh"]) else "mixed")
-    kind = "%dD|%s|%s|%s" % (len(res["Nmesh"]), even, "iso" if len(set(res["Nmesh"])) == 1 else "aniso", ("scaled" if res["label"].startswith("scaled") else "noreduce" if res["label"].startswith("noreduce") else res["label"].split("-")[-1] if res["label"].startswith("rand") else "named"))
+    kind = "%dD|%s|%s|%s" % (len(res["Nmesh"]), even, "iso" if len(set(res["Nmesh"])) == 1 else "aniso", ("history" if res["label"].startswith("history") else "scaled" if res["label"].startswith("scaled") else "noreduce" if res["label"].startswith("noreduce") else res["label"].split("-")[-1] if res["label"].startswith("rand") else "named"))
     ck.case(key=(res["crys"], res["Nmesh"]), nontrivial=res.get("Nk", 0) >= 4 and res.get("Nred", 0) >= 2, kind=kind,
             sample={"crystal": res["crys"], "Nmesh": res["Nmesh"], "Nk": res.get("Nk"), "Nred": res.get("Nred"), "|G|": res["nG"],
                     "first_full_points_n": res.get("full0"), "first_reduced_(n,count)": res.get("red0"), "coq": coq})
@@ -238,6 +246,8 @@ def report(ck, res, coq):
     if res["full_out"]: bad.append(("c22-full-mesh-outside-BZ-" + cause, "full-mesh point(s) %s lie outside the first Brillouin zone (BZG has %d vectors, the Brillouin zone %d facets)" % (res["full_out"], res["BZG"], res["bzg_exact"])))
     if res["red_out"]: bad.append(("c22-reduced-mesh-outside-BZ-" + cause, "reduced-mesh point(s) %s lie outside the first Brillouin zone" % res["red_out"]))
     if res["bzg_missing"]: bad.append(("c22-bzg-incomplete" + ("-candidate-range-3" if beyond3 else ""), "BZG lacks the zone facet(s) G = B.%s (BZG has %d vectors, the Brillouin zone %d facets)" % (res["bzg_missing"], res["BZG"], res["bzg_exact"])))
+    if res.get("state_diff"): bad.append(("c22-crystal-state-changed", "the k-mesh calls changed the Crystal object: attributes %s%s" %
+                                         (res["state_diff"], " (" + res["history"] + ")" if res.get("history") else "")))
     if res.get("scaling_mismatch"): bad.append(("c22-scaling-mismatch", "strictly interior mesh points (integer reciprocal coordinates) differ from those of the unscaled crystal, e.g. n = %s" % (res["scaling_mismatch"],)))
     if res["inbz_wrong"]: bad.append(("c22-inBZ-wrong-" + cause, "inBZ() disagrees with exact Brillouin-zone membership for full-mesh point(s) %s (BZG has %d vectors, the Brillouin zone %d facets)" % (res["inbz_wrong"], res["BZG"], res["bzg_exact"])))
     closed = res.get("group_closed", True)     # crys.G not closed under multiplication (C18, non-reduced cells): orbits undefined
@@ -255,7 +265,7 @@ def report(ck, res, coq):
         if code == 1: raise RuntimeError("harness certificate rejected by the Coq model: %s" % rep)
         exact_bad = bool(res["full_out"] or res["red_out"] or (closed and (res["bad_weight"] or res["dup_reps"] or res["uncovered"])))
         if not closed and code == 4: code = 0; coq = (0, res["nclasses"])
-        bad = [b for b in bad if not b[0].startswith("c22-bzg-incomplete") and not b[0].startswith("c22-inBZ-wrong") and b[0] != "c22-scaling-mismatch"
+        bad = [b for b in bad if not b[0].startswith("c22-bzg-incomplete") and not b[0].startswith("c22-inBZ-wrong") and b[0] not in ("c22-scaling-mismatch", "c22-crystal-state-changed")
                and b[0] not in ("c22-weights-float", "c22-invariant-function")]
         if (code != 0) != exact_bad or (code == 0 and coq[1] != res["nclasses"]):   # coq[1]: number of classes of the model's greedy reduction
             ck.violation("Coq decision (%s: %s) and the Python evaluator (%s) disagree" % (coq, MEANING.get(code, "ok"), [b[0] for b in bad]), rep, key="c22-model-evaluator-disagree")
@@ -272,7 +282,8 @@ def choose_mesh(rng, dim, quick):
 def run(ck):
     ck.rule = ("crystal pool (named lattices + random crystal systems incl. hexagonal/monoclinic/triclinic/skewed, 2-D/3-D, 1-3 sites, "
                "lattice scale 0.5..5; plus NON-reduced cells kept by noreduce=True / Crystal.fromdict: unimodular shears of pool crystals and three "
-               "fixed sheared cells; plus a length-unit sweep: pool crystals with the lattice scaled by 1e-3, 1e2, 1e3, 1e4) x Nmesh (even / odd / anisotropic, 2..20 per direction); distinct = distinct (crystal, Nmesh); "
+               "fixed sheared cells; plus histories on one object (coarse mesh reduced with a loose explicit tolerance, then a fine mesh with the "
+               "default; attributes of the object must not change); plus a length-unit sweep: pool crystals with the lattice scaled by 1e-3, 1e2, 1e3, 1e4) x Nmesh (even / odd / anisotropic, 2..20 per direction); distinct = distinct (crystal, Nmesh); "
                "non-trivial = at least 4 mesh points and 2 reduced points")
     ck.trusted += ["harness/c22.py, sitegen.py: exact read-back of the metric, conversion of k-points to integer reciprocal-lattice coordinates "
                    "(verified rounding), weights to counts (1e-12), Coq literal printing",
@@ -286,7 +297,7 @@ def run(ck):
         cases.append(mesh_case(ck, rng, label, crys, ex, Nmesh))
     # crystals that keep the user's NON-reduced cell (noreduce=True / Crystal.fromdict): sheared descriptions of pool crystals
     from onsager import crystal as _crystal
-    nnr = ck.n(10, 50)
+    nnr = ck.n(10, 36)
     srcs = [("oblique-a2=(1.6,1)", lambda: _crystal.Crystal(np.array([[1., 0.], [1.6, 1.]]).T, [np.zeros(2)], noreduce=True)),
             ("fcc-a3+a1+a2", lambda: _crystal.Crystal(0.5 * np.array([[0, 1, 1], [1, 0, 1], [2, 2, 2.]]).T, [np.zeros(3)], noreduce=True)),
             ("triclinic-very-long-a3", lambda: _crystal.Crystal.fromdict({"lattice": np.array([[1, 0, 0], [.2, 1.1, 0], [2.3, 1.25, 1.2]]), "basis": [np.zeros(3)]})),
@@ -312,6 +323,17 @@ def run(ck):
             continue
         cases.append(res); found += 1
     ck.extra["noreduce_sheared_cells"] = found
+    # histories on ONE Crystal object: a coarse mesh reduced with a loose explicit tolerance first, then a fine mesh with the
+    # default tolerance -- the fine answer is judged exactly like every other mesh (a fresh object gives the reference through
+    # the exact oracle), and no attribute of the object may change
+    nhist = 0
+    for label, crys, chem, ex in sg.pool(rng, 3 * ck.n(8, 30), random_frac=0.7, nchem_max=1, maxatoms=2, scales=(1.0, 1.0, 2.0), skew_frac=0.15):
+        if nhist >= ck.n(6, 20): break
+        bmin = min(np.linalg.norm(crys.reciplatt[:, j]) for j in range(crys.dim))
+        nf = rng.randint(5, 6 if ck.quick else 10) if crys.dim == 3 else rng.randint(6, 14)
+        hist = {"Nmesh": [2] * crys.dim, "threshold": 0.45 * bmin / 2}
+        cases.append(mesh_case(ck, rng, "history-" + label, crys, ex, [nf] * crys.dim, history=hist)); nhist += 1
+    ck.extra["history_cases_coarse_loose_then_fine"] = nhist
     # length-unit sweep: the same crystal with the lattice scaled by 1e-3 .. 1e4 (mesh, BZG, weights judged as for every cell;
     # in integer reciprocal coordinates the strictly interior mesh points must coincide with those of the unscaled crystal)
     from fractions import Fraction as Fr
@@ -319,7 +341,7 @@ def run(ck):
     base = [c for c in cases if "term" in c and not c["label"].startswith("noreduce") and "_crys" in c]
     base.sort(key=lambda c: (c.get("orthogonal", False), c["label"], str(c["Nmesh"])))       # non-orthogonal lattices first
     nsweep = 0
-    for b in base[:ck.n(12, 24)]:
+    for b in base[:ck.n(12, 16)]:
         for sc in ([rng.choice(SCALES)] if ck.quick else SCALES):
             c0 = b["_crys"]
             try:
